@@ -280,6 +280,24 @@ def sub_twice(x, new_execution=False):
     return subrun(twice(x), executor="default", new_execution=new_execution)
 
 
+# ------------------------------------------------------------------ tasks with shallow validity checking (ultimate reduction)
+@task(check_valid="shallow")
+def s_inc(x):
+    return x + 1
+
+
+@task(check_valid="shallow")
+def s_raiser(kind, tag):
+    raise ERR[kind]("%s-%s" % (kind, tag))
+
+
+@task(check_valid="shallow")
+def s_fail_after(n, kind):
+    if n <= 0:
+        return s_raiser(kind, "sdeep")
+    return s_fail_after(n - 1, kind)
+
+
 # ------------------------------------------------------------------ async tasks (free-running modes only)
 @task(cache=True, check_valid="shallow")
 async def a_inc(x):
